@@ -236,7 +236,7 @@ def arith_forms(te, op_chars_of_test, P):
             return []
         for t in ast.walk(te):
             if isinstance(t, ast.Try) and any('ArithmeticError' in ast.unparse(h.type) for h in t.handlers if h.type):
-                tbl = table_dispatch(t.body, core_mod, P)
+                tbl = table_dispatch(t.body, core_mod, P, pre=[x for x in ast.walk(te) if isinstance(x, ast.Assign)])
                 if tbl is None:
                     continue
                 for c, kind in tbl:
